@@ -224,6 +224,8 @@ def run(tier, seed):
     depth = 4 if tier == "quick" else 6
     cfgs = [dict(c, lr=lr) for c in configs() for lr in LRS[tier]]
     cases = [{"cfg": c, "history": "".join(h)} for c in cfgs for h in itertools.product(EVENTS, repeat=depth)]
+    # long runs: one backward, then 80 consecutive steps (bias corrections that saturate, buffers that drift) for every configuration
+    cases += [{"cfg": c, "history": "b" + "S" * 40 + "B" + "S" * 40} for c in cfgs]
     r = engine.run_cases(cases, judge)
     # keep, per (kind, cfg), only the shortest violating prefix
     best = {}
@@ -240,7 +242,7 @@ def run(tier, seed):
            "samples": r["samples"], "exhaustive": True, "depth": depth, "configurations": len(cfgs),
            "rule": f"{len(cfgs)} hyper-parameter configurations (SGD: momentum x dampening x nesterov x weight_decay x maximize, "
                    f"constructor-accepted only; Adam/AdamW: weight_decay x maximize x betas x eps) x ALL {5 ** depth} histories of "
-                   f"length {depth} over {{backward(L1), backward(L2), zero_grad, step, unfreeze w3}} (every shorter history is a prefix and is "
+                   f"length {depth} over {{backward(L1), backward(L2), zero_grad, step, unfreeze w3}} (plus one 82-event run 'b S^40 B S^40' per configuration; every shorter history is a prefix and is "
                    "compared event by event): parameters w1 (float64, first gradient arrives late), w2 (float32, 2x2), w5 (0-d), frozen w3 and foreign w4; states = "
                    "(configuration, history prefix) pairs; after every event parameter values vs the transcribed PyTorch rules "
                    "(cross-validated against torch.optim at 1e-11), identity/dtype/shape/storage (4 configurations pass NumPy float64 scalars as hyper-parameters), frozen and foreign parameters byte-identical"}
